@@ -600,9 +600,13 @@ def main():
         meshq = gen_mesh("TRI3", 0.5)
         leftq = meshq.Nodes_Conditions(lambda x, y, z: x == 0)
         rightq = meshq.Nodes_Conditions(lambda x, y, z: x == 2.0)
-        for pname, pval in (("E", 150.0), ("v", 0.2), ("planeStress", False)):
+        # every split reads the law in its own way (C, S, their square roots, the Lame constants): each of them follows the change
+        combos = [("Amor", "E", 150.0), ("Amor", "v", 0.2), ("Amor", "planeStress", False), ("He", "v", 0.2), ("He", "E", 150.0), ("Zhang", "v", 0.15), ("Miehe", "v", 0.2)]
+        if args.tier == "thorough":
+            combos += [(sp_, "v", 0.2) for sp_ in ("Bourdin", "AnisotStress", "Stress", "AnisotStrain")] + [("He", "planeStress", False)]
+        for splitq, pname, pval in combos:
             matq = Models.Elastic.Isotropic(2, E=210.0, v=0.3, planeStress=True, thickness=1.0)
-            sq = Simulations.PhaseField(meshq, Models.PhaseField(matq, "Amor", "AT2", 0.5, 0.2))
+            sq = Simulations.PhaseField(meshq, Models.PhaseField(matq, splitq, "AT2", 0.5, 0.2))
             sq.add_dirichlet(leftq, [0, 0], ["x", "y"])
             sq.add_dirichlet(rightq, [0.04], ["x"])
             sq.Solve()
@@ -617,16 +621,16 @@ def main():
             got = {pt: [A.toarray() for A in sq.Get_K_C_M_F(pt)] for pt in ("damage", "elastic")}
             kw = dict(E=210.0, v=0.3, planeStress=True)
             kw[pname] = pval
-            sf2 = Simulations.PhaseField(meshq, Models.PhaseField(Models.Elastic.Isotropic(2, thickness=1.0, **kw), "Amor", "AT2", 0.5, 0.2))
+            sf2 = Simulations.PhaseField(meshq, Models.PhaseField(Models.Elastic.Isotropic(2, thickness=1.0, **kw), splitq, "AT2", 0.5, 0.2))
             sf2._Set_solutions("elastic", uq.copy())
             sf2._Set_solutions("damage", dq.copy())
-            res.case(("phasefield", "elastic-law", pname))
+            res.case(("phasefield", "elastic-law", splitq, pname))
             for pt in ("damage", "elastic"):
                 want = [A.toarray() for A in sf2.Get_K_C_M_F(pt)]
                 bad = [n for n, a, b in zip("KCMF", got[pt], want) if a.shape != b.shape or not (np.abs(a - b).max() <= 1e-9 * (1e-300 + np.abs(b).max()))]
                 if bad:
                     res.fail(f"stale phase-field {pt} system after a change of the elastic law", f"after material.{pname} = {pval} on a loaded state, {bad} of the {pt} problem differ from a fresh simulation in the same state",
-                             dict(sim="PhaseField", parameter=pname, value=pval, max_damage=float(dq.max())))
+                             dict(sim="PhaseField", split=splitq, parameter=pname, value=pval, max_damage=float(dq.max())))
     except Exception as ex:  # noqa: BLE001
         res.fail("phase-field elastic-law scenario raises", f"{type(ex).__name__}: {str(ex)[:150]}", dict(sim="PhaseField"))
 
@@ -766,6 +770,69 @@ def main():
                              f"(relative gap {np.abs(Kgot - Kwant).max() / np.abs(Kwant).max():.3e})", dict(sim=kind_, parameter=pname, simulation=k_))
     except Exception as ex:  # noqa: BLE001
         res.fail("shared-model scenario raises", f"{type(ex).__name__}: {str(ex)[:150]}", dict(scenario="shared model"))
+
+    # ---------------- a simulation that was copied (copy.deepcopy) or saved and read back (Save / Load_Simu): it follows the changes of ITS objects ----------------
+    import copy as _copy
+    import shutil as _shutil
+    import tempfile as _tempfile
+    from EasyFEA.Simulations import Load_Simu as _Load_Simu
+    for how in ("deepcopy", "Save + Load_Simu"):
+        for kindc in ("elastic", "thermal"):
+            identc = dict(sim=kindc, how=how, ops=["build, solve, read K", how, "material parameter assigned on the copy's model", "read K", "copy's mesh.coord stretched", "read K, solve"])
+            scratch_ = None
+            res.case(("copied simulation", how, kindc))
+            try:
+                meshc = gen_mesh("QUAD4", 0.5)
+
+                def buildc(mesh_, E_=None, k_=None):
+                    if kindc == "elastic":
+                        s_ = Simulations.Elastic(mesh_, Models.Elastic.Isotropic(2, E=E_ or 10.0, v=0.25, planeStress=True, thickness=1.0))
+                        s_.add_dirichlet(mesh_.Nodes_Conditions(lambda x, y, z: x == 0), [0.0, 0.0], ["x", "y"])
+                        s_.add_surfLoad(mesh_.Nodes_Conditions(lambda x, y, z: x == x.max()), [0.5], ["x"])
+                    else:
+                        s_ = Simulations.Thermal(mesh_, Models.Thermal(k_ or 2.0, 1.0))
+                        s_.add_dirichlet(mesh_.Nodes_Conditions(lambda x, y, z: x == 0), [1.0], ["t"])
+                        s_.add_surfLoad(mesh_.Nodes_Conditions(lambda x, y, z: x == x.max()), [0.5], ["t"])
+                    return s_
+                s0c = buildc(meshc)
+                s0c.Solve()
+                s0c.Save_Iter()
+                s0c.Get_K_C_M_F()
+                if how == "deepcopy":
+                    s1c = _copy.deepcopy(s0c)
+                else:
+                    scratch_ = _tempfile.mkdtemp(prefix="c14_copy_")
+                    s0c.Save(scratch_)
+                    s1c = _Load_Simu(scratch_)
+                s1c.Get_K_C_M_F()
+                if kindc == "elastic":
+                    s1c.model.E = 35.0
+                else:
+                    s1c.model.k = 5.0
+                K1 = s1c.Get_K_C_M_F()[0].toarray()
+                Kf = buildc(meshc.copy(), E_=35.0, k_=5.0).Get_K_C_M_F()[0].toarray()
+                if not (np.abs(K1 - Kf).max() <= 1e-9 * np.abs(Kf).max()):
+                    res.fail(f"stale matrices in a copied simulation ({how}) after a parameter change sim={kindc}", f"after the model parameter of the copy was assigned, its K differs from a fresh simulation by "
+                             f"{np.abs(K1 - Kf).max() / np.abs(Kf).max():.2e} (relative); needUpdate = {s1c.needUpdate}", identc)
+                    continue
+                Xc = s1c.mesh.coord
+                Xc[:, 1] *= 2.0
+                s1c.mesh.coord = Xc
+                K2 = s1c.Get_K_C_M_F()[0].toarray()
+                meshs = meshc.copy()
+                Xs = meshs.coord
+                Xs[:, 1] *= 2.0
+                meshs.coord = Xs
+                sfc = buildc(meshs, E_=35.0, k_=5.0)
+                Kf2 = sfc.Get_K_C_M_F()[0].toarray()
+                if not (np.abs(K2 - Kf2).max() <= 1e-9 * np.abs(Kf2).max()):
+                    res.fail(f"stale matrices in a copied simulation ({how}) after its mesh was stretched sim={kindc}", f"after mesh.coord of the copy was stretched, its K differs from a fresh simulation on the stretched mesh by "
+                             f"{np.abs(K2 - Kf2).max() / np.abs(Kf2).max():.2e} (relative); needUpdate = {s1c.needUpdate}", identc)
+            except Exception as ex:  # noqa: BLE001
+                res.fail(f"copied simulation scenario raises ({how}) sim={kindc}", f"{type(ex).__name__}: {str(ex)[:200]}", identc)
+            finally:
+                if scratch_:
+                    _shutil.rmtree(scratch_, ignore_errors=True)
 
     # ---------------- who observes whom ----------------
     # every parameter holder reachable from the model must notify the simulation; the dependency table of Model/Sources.lean and
